@@ -931,6 +931,11 @@ class Unit:
             fb = breakdown.get(f["key"]) or breakdown.get(f["fn"])
             secs = (fb or {}).get("time", 0) / 1000.0 if fb else 0.0
             pristine = f["pin"] is not None and f["rec"]["sha256"].startswith(f["pin"])
+            # a function whose own text is unchanged is still "changed" when a constant / type definition the unit
+            # extracts next to it changed (e.g. a flag constant): a failing proof is then a violation, not instability
+            changed_types = [t["type"] for t in fns if t.get("type") and t.get("pin") and not t["rec"]["sha256"].startswith(t["pin"])]
+            if changed_types:
+                pristine = False
             common_kw = dict(fn=f"{f['rec']['file']}:{f.get('key') or f['fn']}", functions=[f"{f['rec']['file']}:{f.get('key') or f['fn']}"],
                              extraction=f["rec"], seconds=secs, desc=self.desc.get(f["key"], self.desc.get(f["fn"], "")),
                              rlimit=(fb or {}).get("rlimit"))
@@ -943,7 +948,7 @@ class Unit:
                 proofy = bool(mine)
                 rl = "rlimit" in msgs.lower() or "resource limit" in msgs.lower()
                 if proofy and not rl and not pristine:
-                    v, why = "violated", f"{msgs} — this obligation is discharged on the pinned source (sha {f['pin']}); the function text changed (sha {f['rec']['sha256'][:16]}) and the verifier no longer accepts its contract"
+                    v, why = "violated", f"{msgs} — this obligation is discharged on the pinned source (sha {f['pin']}); " + (f"the extracted definitions of {', '.join(changed_types)} changed" if changed_types and f['pin'] and f['rec']['sha256'].startswith(f['pin']) else f"the function text changed (sha {f['rec']['sha256'][:16]})") + " and the verifier no longer accepts its contract"
                 elif proofy and not rl and pristine and f["pin"]:
                     v, why = "undecided", f"proof failed on UNCHANGED function text (unstable proof, not a code change): {msgs}"
                 elif proofy and not rl:
@@ -1011,6 +1016,17 @@ def pin(unit, repo):
     ttext = open(unit.template, encoding="utf-8").read()
     segs = parse_template(ttext)
     for kind, d in segs:
+        if kind == "type":
+            _, trec, _ = extract_type(repo, d)
+            tsha = trec["sha256"][:16]
+            new_lines = []
+            for ln in ttext.split("\n"):
+                kv = _parse_kv(ln[len("//@TYPE"):]) if ln.strip().startswith("//@TYPE") else None
+                if kv and kv.get("name") == d["name"] and kv.get("file") == d["file"] and kv.get("impl") == d.get("impl"):
+                    ln = re.sub(r"\s+sha=\w+", "", ln.rstrip()) + f" sha={tsha}"
+                new_lines.append(ln)
+            ttext = "\n".join(new_lines)
+            continue
         if kind != "extract":
             continue
         _, rec = extract_fn(repo, d, ttext)
